@@ -8,7 +8,7 @@ BUILD = os.path.join(VERIF, ".build")
 REPO = os.path.abspath(os.environ.get("VERIF_REPO", "/repo"))   # scratch worktrees: VERIF_REPO=/tmp/wt ./check ...
 
 # evidence of runs against a scratch worktree never overwrites the committed evidence
-EVDIR = os.path.join(VERIF, "evidence") if REPO == "/repo" else os.path.join(BUILD, "alt-evidence")
+EVDIR = os.path.join(VERIF, "evidence") if REPO == "/repo" else os.path.join(BUILD, "alt-evidence", hashlib.sha1(REPO.encode()).hexdigest()[:8])
 
 def driver_bin(prop):
     return os.path.join(LEAN, ".lake", "build", "bin", "driver_" + prop.lower())
